@@ -1617,7 +1617,7 @@ Lemma run_script_records sc :
   let c := cfg_of sc in
   let n := Z.to_nat (zn sc 4) in
   let m := Z.to_nat (zn sc 5) in
-  let evs := evs_of n (chunk3 (firstn (3 * m) (skipn 6 sc))) (skipn (3 * m) (skipn 6 sc)) in
+  let evs := evs_of (unit_of sc) n (chunk3 (firstn (3 * m) (skipn 6 sc))) (skipn (3 * m) (skipn 6 sc)) in
   run_script sc = concat (map (record c n (init c) evs) (seq 0 (length evs))).
 Proof.
   cbv zeta. unfold run_script. rewrite <- (inflight_init (cfg_of sc) (Z.to_nat (zn sc 4))) at 1.
@@ -1737,34 +1737,84 @@ Example ex_private_shared :
 Proof. vm_compute. repeat split. Qed.
 
 (* the script interface reproduces traces recorded from the implementation
-   (harness/src/bin/c10.rs on corpus scripts 1, 4 and 9 of gen/c10.py; 4 = LFU tie, oracle appended;
-    9 = ttl 1500 us: served at 1500 us, expired at 1501 us and at 1900 us) *)
+   (harness/src/bin/c10.rs on corpus scripts 1, 4, 9, 15 and 17 of gen/c10.py; 4 = LFU tie, oracle appended;
+    9 = ttl 1500 us: served at 1500 us, expired at 1501 us and at 1900 us; 15 = nanosecond clock, ttl 1500 ns:
+    served at 1500 ns, expired at 1501 ns and at 1999 ns; 17 = keys 119, 120, 200, 239 in two stores) *)
 Example ex_recorded_ttl :
-  run_script [0; 2; 20; 0; 4; 9; 0; 0; 3; 4; 0; 7; 1; 0; 0; 3; 20; 0; 0; 1; 3; 1; 1; 0; 3; 1; 0;
-              0; 2; 3; 1; 2; 0; -1; -1; -1; -1; -1; -1; -1; 3; -1]
-  = [-1; 0; 1; 1; 2; 0; 0; 0; 0; -1; 0; 0; 1; 0; 0; 0; 0; 0; 1; 7; 0; 0; 0; 8; 0; 8; 0;
-     -1; 0; 0; 0; 0; 8; 0; 8; 0; -1; 0; 0; 0; 1; 8; 0; 8; 0; 1; 7; 0; 0; 0; 8; 0; 8; 0;
-     -1; 0; 0; 0; 0; 8; 0; 8; 0; -1; 0; 1; 1; 2; 0; 0; 0; 0; 0; 0; 0; 1; 0; 0; 0; 0; 0].
+  run_script
+    [0; 2; 20; 0; 4; 9; 0; 0; 3; 4; 0; 7; 1; 0; 0; 3; 20; 0; 0; 1; 3; 1; 1; 0; 3; 1; 0; 0; 2;
+     3; 1; 2; 0; -1; -1; -1; -1; -1; -1; -1; 3; -1]
+  = [-1; 0; 1; 1; 2; 0; 0; 0; 0; 0; 0; 0; 0; -1; 0; 0; 1; 0; 0; 0; 0; 0; 0; 0; 0; 0; 1; 7; 0;
+     0; 0; 8; 0; 0; 0; 8; 0; 0; 0; -1; 0; 0; 0; 0; 8; 0; 0; 0; 8; 0; 0; 0; -1; 0; 0; 0; 1; 8;
+     0; 0; 0; 8; 0; 0; 0; 1; 7; 0; 0; 0; 8; 0; 0; 0; 8; 0; 0; 0; -1; 0; 0; 0; 0; 8; 0; 0; 0; 8;
+     0; 0; 0; -1; 0; 1; 1; 2; 0; 0; 0; 0; 0; 0; 0; 0; 0; 0; 0; 1; 0; 0; 0; 0; 0; 0; 0; 0; 0].
 Proof. vm_compute. reflexivity. Qed.
 
 Example ex_recorded_lfu_tie :
-  run_script [1; 2; -1; 0; 5; 13; 0; 0; 0; 4; 0; 1; 1; 0; 0; 0; 1; 1; 4; 1; 2; 1; 1; 0; 0; 2; 2;
-              4; 2; 3; 1; 2; 0; 0; 3; 0; 1; 3; 0; 0; 4; 1; 1; 4; 0;
-              -1; -1; -1; -1; -1; -1; -1; -1; 1; -1; -1; -1; -1]
-  = [-1; 0; 1; 1; 2; 0; 0; 0; 0; -1; 0; 0; 1; 0; 0; 0; 0; 0; 1; 1; 0; 0; 0; 1; 0; 1; 0;
-     -1; 0; 1; 1; 2; 1; 0; 1; 0; -1; 0; 0; 1; 0; 1; 0; 1; 0; 1; 2; 0; 0; 0; 3; 0; 3; 0;
-     -1; 0; 1; 1; 2; 3; 0; 3; 0; -1; 0; 0; 1; 0; 3; 0; 3; 0; 1; 3; 0; 0; 4; 5; 0; 5; 0;
-     -1; 0; 0; 0; 1; 5; 0; 5; 0; 1; 1; 0; 0; 0; 5; 0; 5; 0; -1; 0; 1; 1; 2; 5; 0; 5; 0;
-     0; 0; 0; 1; 0; 5; 0; 5; 0].
+  run_script
+    [1; 2; -1; 0; 5; 13; 0; 0; 0; 4; 0; 1; 1; 0; 0; 0; 1; 1; 4; 1; 2; 1; 1; 0; 0; 2; 2; 4; 2;
+     3; 1; 2; 0; 0; 3; 0; 1; 3; 0; 0; 4; 1; 1; 4; 0; -1; -1; -1; -1; -1; -1; -1; -1; 1; -1; -1;
+     -1; -1]
+  = [-1; 0; 1; 1; 2; 0; 0; 0; 0; 0; 0; 0; 0; -1; 0; 0; 1; 0; 0; 0; 0; 0; 0; 0; 0; 0; 1; 1; 0;
+     0; 0; 1; 0; 0; 0; 1; 0; 0; 0; -1; 0; 1; 1; 2; 1; 0; 0; 0; 1; 0; 0; 0; -1; 0; 0; 1; 0; 1;
+     0; 0; 0; 1; 0; 0; 0; 1; 2; 0; 0; 0; 3; 0; 0; 0; 3; 0; 0; 0; -1; 0; 1; 1; 2; 3; 0; 0; 0; 3;
+     0; 0; 0; -1; 0; 0; 1; 0; 3; 0; 0; 0; 3; 0; 0; 0; 1; 3; 0; 0; 4; 5; 0; 0; 0; 5; 0; 0; 0;
+     -1; 0; 0; 0; 1; 5; 0; 0; 0; 5; 0; 0; 0; 1; 1; 0; 0; 0; 5; 0; 0; 0; 5; 0; 0; 0; -1; 0; 1;
+     1; 2; 5; 0; 0; 0; 5; 0; 0; 0; 0; 0; 0; 1; 0; 5; 0; 0; 0; 5; 0; 0; 0].
 Proof. vm_compute. reflexivity. Qed.
 
 Example ex_recorded_submilli_ttl :
-  run_script [0; 2; 1500; 4; 4; 13; 5; 0; 3; 4; 0; 7; 1; 0; 0; 6; 1500; 0; 5; 1; 3; 1; 1; 0; 6; 1; 0;
-              5; 2; 3; 4; 2; 8; 1; 2; 0; 6; 1900; 0; 5; 3; 3; 1; 3; 0;
-              -1; -1; -1; -1; -1; -1; -1; 3; -1; -1; -1; 3; -1]
-  = [-1; 0; 1; 1; 2; 0; 0; 0; 0; -1; 0; 0; 1; 0; 0; 0; 0; 0; 1; 7; 0; 0; 0; 8; 0; 8; 0;
-     -1; 0; 0; 0; 0; 8; 0; 8; 0; -1; 0; 0; 0; 1; 8; 0; 8; 0; 1; 7; 0; 0; 0; 8; 0; 8; 0;
-     -1; 0; 0; 0; 0; 8; 0; 8; 0; -1; 0; 1; 1; 2; 0; 0; 0; 0; -1; 0; 0; 1; 0; 0; 0; 0; 0;
-     1; 8; 0; 0; 0; 8; 0; 8; 0; -1; 0; 0; 0; 0; 8; 0; 8; 0; -1; 0; 1; 1; 2; 0; 0; 0; 0;
-     0; 0; 0; 1; 0; 0; 0; 0; 0].
+  run_script
+    [0; 2; 1500; 4; 4; 13; 5; 0; 3; 4; 0; 7; 1; 0; 0; 6; 1500; 0; 5; 1; 3; 1; 1; 0; 6; 1; 0; 5;
+     2; 3; 4; 2; 8; 1; 2; 0; 6; 1900; 0; 5; 3; 3; 1; 3; 0; -1; -1; -1; -1; -1; -1; -1; 3; -1;
+     -1; -1; 3; -1]
+  = [-1; 0; 1; 1; 2; 0; 0; 0; 0; 0; 0; 0; 0; -1; 0; 0; 1; 0; 0; 0; 0; 0; 0; 0; 0; 0; 1; 7; 0;
+     0; 0; 8; 0; 0; 0; 8; 0; 0; 0; -1; 0; 0; 0; 0; 8; 0; 0; 0; 8; 0; 0; 0; -1; 0; 0; 0; 1; 8;
+     0; 0; 0; 8; 0; 0; 0; 1; 7; 0; 0; 0; 8; 0; 0; 0; 8; 0; 0; 0; -1; 0; 0; 0; 0; 8; 0; 0; 0; 8;
+     0; 0; 0; -1; 0; 1; 1; 2; 0; 0; 0; 0; 0; 0; 0; 0; -1; 0; 0; 1; 0; 0; 0; 0; 0; 0; 0; 0; 0;
+     1; 8; 0; 0; 0; 8; 0; 0; 0; 8; 0; 0; 0; -1; 0; 0; 0; 0; 8; 0; 0; 0; 8; 0; 0; 0; -1; 0; 1;
+     1; 2; 0; 0; 0; 0; 0; 0; 0; 0; 0; 0; 0; 1; 0; 0; 0; 0; 0; 0; 0; 0; 0].
+Proof. vm_compute. reflexivity. Qed.
+
+Example ex_recorded_nano_ttl :
+  run_script
+    [0; 2; 1500; 12; 4; 13; 5; 0; 3; 4; 0; 7; 1; 0; 0; 6; 1500; 0; 5; 1; 3; 1; 1; 0; 6; 1; 0;
+     5; 2; 3; 4; 2; 8; 1; 2; 0; 6; 1999; 0; 5; 3; 3; 1; 3; 0; -1; -1; -1; -1; -1; -1; -1; 3;
+     -1; -1; -1; 3; -1]
+  = [-1; 0; 1; 1; 2; 0; 0; 0; 0; 0; 0; 0; 0; -1; 0; 0; 1; 0; 0; 0; 0; 0; 0; 0; 0; 0; 1; 7; 0;
+     0; 0; 8; 0; 0; 0; 8; 0; 0; 0; -1; 0; 0; 0; 0; 8; 0; 0; 0; 8; 0; 0; 0; -1; 0; 0; 0; 1; 8;
+     0; 0; 0; 8; 0; 0; 0; 1; 7; 0; 0; 0; 8; 0; 0; 0; 8; 0; 0; 0; -1; 0; 0; 0; 0; 8; 0; 0; 0; 8;
+     0; 0; 0; -1; 0; 1; 1; 2; 0; 0; 0; 0; 0; 0; 0; 0; -1; 0; 0; 1; 0; 0; 0; 0; 0; 0; 0; 0; 0;
+     1; 8; 0; 0; 0; 8; 0; 0; 0; 8; 0; 0; 0; -1; 0; 0; 0; 0; 8; 0; 0; 0; 8; 0; 0; 0; -1; 0; 1;
+     1; 2; 0; 0; 0; 0; 0; 0; 0; 0; 0; 0; 0; 1; 0; 0; 0; 0; 0; 0; 0; 0; 0].
+Proof. vm_compute. reflexivity. Qed.
+
+Example ex_recorded_wide_keys :
+  run_script
+    [2; 2; -1; 0; 5; 14; 7; 0; 239; 4; 0; 1; 1; 0; 0; 7; 1; 888; 4; 1; 2; 1; 1; 0; 7; 2; 119;
+     4; 2; 3; 1; 2; 0; 7; 3; 200; 4; 3; 4; 1; 3; 0; 7; 4; 239; 1; 4; 0; -1; -1; -1; -1; -1; -1;
+     -1; -1; -1; -1; -1; 239; -1; -1]
+  = [-1; 0; 1; 1; 2; 0; 0; 0; 0; 0; 0; 0; 0; -1; 0; 0; 1; 0; 0; 0; 0; 0; 0; 0; 0; 0; 1; 1; 0;
+     0; 0; 0; 664613997892457936451903530140172288; 0; 0; 0;
+     664613997892457936451903530140172288; 0; 0; -1; 0; 1; 1; 2; 0;
+     664613997892457936451903530140172288; 0; 0; 0; 664613997892457936451903530140172288; 0; 0;
+     -1; 0; 0; 1; 0; 0; 664613997892457936451903530140172288; 0; 0; 0;
+     664613997892457936451903530140172288; 0; 0; 1; 2; 0; 0; 0; 0;
+     664613997892457936451903530140172288; 0; 1; 0; 664613997892457936451903530140172288; 0; 1;
+     -1; 0; 1; 1; 2; 0; 664613997892457936451903530140172288; 0; 1; 0;
+     664613997892457936451903530140172288; 0; 1; -1; 0; 0; 1; 0; 0;
+     664613997892457936451903530140172288; 0; 1; 0; 664613997892457936451903530140172288; 0; 1;
+     1; 3; 0; 0; 0; 664613997892457936451903530140172288; 664613997892457936451903530140172288;
+     0; 1; 664613997892457936451903530140172288; 664613997892457936451903530140172288; 0; 1;
+     -1; 0; 1; 1; 2; 664613997892457936451903530140172288;
+     664613997892457936451903530140172288; 0; 1; 664613997892457936451903530140172288;
+     664613997892457936451903530140172288; 0; 1; -1; 0; 0; 1; 0;
+     664613997892457936451903530140172288; 664613997892457936451903530140172288; 0; 1;
+     664613997892457936451903530140172288; 664613997892457936451903530140172288; 0; 1; 1; 4; 0;
+     0; 4; 664613997892457936451903530140172288; 1208925819614629174706176; 0; 1;
+     664613997892457936451903530140172288; 1208925819614629174706176; 0; 1; -1; 0; 1; 1; 2;
+     664613997892457936451903530140172288; 1208925819614629174706176; 0; 1;
+     664613997892457936451903530140172288; 1208925819614629174706176; 0; 1; 0; 0; 0; 1; 0;
+     664613997892457936451903530140172288; 1208925819614629174706176; 0; 1;
+     664613997892457936451903530140172288; 1208925819614629174706176; 0; 1].
 Proof. vm_compute. reflexivity. Qed.
